@@ -14,4 +14,11 @@ for n in range(0, 12):
                            defs={"VP_MODE": 2, "VP_N": n}, unwind=13, include_real=["util/coding.h"],
                            functions=["ldb_varint32_read", "ldb_varint64_read"],
                            desc="readers on arbitrary bytes agree with reference decoder (accept, value, consumed)"))
-META = {"level": "model_checking"}
+META = {
+    "level": "model_checking",
+    "level_text": "Bounded model checking (CBMC) of lcdb's own coding.h / version_edit.c / version_set.c code: encode/decode round trips and agreement with an independently written LevelDB-format reference for every value of the symbolic fields inside the stated sizes; counterexamples are replayed natively.",
+    "level_note": "Trusted: CBMC's C semantics of the goto-cc translation, the kit models (allocator never fails, byte-loop mem*), the harness' reference encoders/decoders. Sizes (files per edit, key lengths) are bounded and listed in the evidence; real MANIFEST histories are not executed.",
+    "bounds": ["varint32/64 and fixed32/64: all values", "varint readers: arbitrary inputs of every length 0..11"],
+    "outside": ["edit sequences produced by real histories", "thousands of files per edit"],
+    "models": ["vp_mem.c byte-loop memcpy/memcmp/memset", "vp_nondet.c symbolic input sources"],
+}
